@@ -105,6 +105,51 @@ def _check_zc(case):
     return cnt, "+".join(sorted(outcomes)), (width, rate, samples) if has else None, viols
 
 
+EDITS = (("del", 0, 2), ("del", 2, 4), ("ins", 0, (1, -2)), ("ins", 3, (0,)), ("rep", 1, 3, (1, 1)), ("rep", 0, 2, (-2, 1)), ("cat", (0, 1)))
+
+
+def _check_zc_live(case):
+    """look a crossing up, edit the SAME Wav object in place, look it up again: the second answer must be the answer a
+    fresh Wav holding the current samples gives (a Wav is mutable; nothing about the old audio may be remembered)"""
+    samples, ei = case
+    rate, width = 8, 2
+    n = len(samples)
+    edit = EDITS[ei]
+    viols = []
+    cnt = 0
+    for ti in range(0, n + 1):
+        for stepS in (2, 3):
+            t, step = ti / rate, stepS / rate
+            w = mkwav(samples, width, rate)
+            guarded(w.findNearestZeroCrossing, t, step)
+            if edit[0] == "del":
+                call(w.deleteSegment, edit[1] / rate, edit[2] / rate)
+            elif edit[0] == "ins":
+                call(w.insert, edit[1] / rate, W.pack(edit[2], width))
+            elif edit[0] == "rep":
+                call(w.replaceSegment, edit[1] / rate, edit[2] / rate, W.pack(edit[3], width))
+            else:
+                call(w.concatenate, W.pack(edit[1], width))
+            if len(w.frames) % width:
+                continue
+            cur = W.unpack(w.frames, width)
+            if t > len(cur) / rate:
+                continue
+            a = guarded(w.findNearestZeroCrossing, t, step)
+            b = guarded(mkwav(cur, width, rate).findNearestZeroCrossing, t, step)
+            cnt += 3
+            ka = (a[0], a[1] if a[0] == "ok" else type(a[1]).__name__)
+            kb = (b[0], b[1] if b[0] == "ok" else type(b[1]).__name__)
+            if ka != kb:
+                viols.append(Viol("zc-history-dependent", f"samples {list(samples)}: after findNearestZeroCrossing({t},{step}) and the in-place edit {edit} "
+                                                          f"the same lookup gives {ka}; a fresh Wav holding the current samples {cur} gives {kb}"))
+                return cnt, "!", None, viols
+            if a[0] == "ok" and float(a[1] * rate).is_integer() and not is_crossing(cur, round(a[1] * rate)):
+                viols.append(Viol("zc-not-a-crossing", f"after the edit {edit}: {a[1]} is not a crossing of the current audio {cur}"))
+                return cnt, "!", None, viols
+    return cnt, "ok", (samples, ei), viols
+
+
 # ------------------------------------------------------------------ tgBoundariesToZeroCrossings
 RATE = 1000
 BASE = (3, -2, 4, -1, 5, 0, 2, -4, 1, 1, 3, 3, -4, -1, 5, -3) * 2  # 32 samples, 0.032 s
@@ -257,6 +302,11 @@ def parts(tier):
                        "one too-small step, all under a %gs watchdog; non-trivial = distinct recordings that contain a crossing"
                        % (alpha, maxlen, WATCHDOG_S),
                   bounds={"alphabet": list(alpha), "max_length": maxlen}, chunk=16),
+        InputPart("zero-crossing-after-edit",
+                  lambda: ((smp, ei) for n in (4, 5) for smp in itertools.product((-2, 0, 1), repeat=n) for ei in range(len(EDITS))),
+                  _check_zc_live,
+                  rule="every recording over {-2,0,1}^4..5 x 7 in-place edits x every on-grid target x 2 steps: lookup, edit the same live Wav, "
+                       "lookup again = the answer of a fresh Wav with the current samples (history independence)", bounds={}, chunk=8),
         InputPart("tgBoundariesToZeroCrossings", gen_tgzc, _check_tgzc,
                   rule="interval sets (<=2) on boundaries %s x point sets x adjust flags over a 32-sample dense-crossing recording at rate "
                        "1000: only timestamps change, each to a crossing; tier order, counts, labels kept (a praatio error is accepted "
